@@ -32,9 +32,9 @@ ASSUMPTIONS = [
 ]
 MIN_EVENTS = {
     'quick': {'connections_checked': 300, 'payloads_checked': 1400, 'disconnections_checked': 200,
-              'adv_events_checked': 300, 'steal_cases': 30},
+              'adv_events_checked': 300, 'steal_cases': 50, 'churn_cases': 50, 'fragadv_cases': 20},
     'thorough': {'connections_checked': 5000, 'payloads_checked': 22000, 'disconnections_checked': 4000,
-                 'adv_events_checked': 6000, 'steal_cases': 600},
+                 'adv_events_checked': 6000, 'steal_cases': 1000, 'churn_cases': 1000, 'fragadv_cases': 400},
 }
 CASE_TIMEOUT = 300
 CID = 0x0074
@@ -48,6 +48,12 @@ def plan(tier, seed):
         cases.append({'kind': 'steal', 'seed': seed * 1000003 + i})
     for i in range(60 if tier == 'quick' else 1200):
         cases.append({'kind': 'scan', 'seed': seed * 1000003 + i})
+    for i in range(80 if tier == 'quick' else 1600):
+        cases.append({'kind': 'churn', 'seed': seed * 1000003 + i})
+    for i in range(30 if tier == 'quick' else 600):
+        cases.append({'kind': 'parallel', 'seed': seed * 1000003 + i})
+    for i in range(40 if tier == 'quick' else 800):
+        cases.append({'kind': 'fragadv', 'seed': seed * 1000003 + i})
     return cases
 
 
@@ -372,8 +378,248 @@ async def scan(case, r: R):
                 'payload_lengths': {i: (len(a), len(b)) for i, (a, b) in advs.items()}}
 
 
+async def churn(case, r: R):
+    """Connections come and go in random order on 3-5 devices (LE and BR/EDR); after every
+    step every live connection must still carry a unique payload to its peer only, and handles
+    must be unique per device."""
+    from bumble import hci
+    from bumble.core import PhysicalTransport
+    from vlib import rig as vrig
+    rng = random.Random(case['seed'])
+    vrig.seed_entropy(case['seed'])
+    n = rng.choice([3, 4, 5])
+    rg = make_rig(rng, case, n, [rng.random() < 0.3 for _ in range(n)], classic=True)
+    await rg.power_on()
+    ev = Events(rg)
+    live = {}   # (a, b, tr) -> (ca, cb)
+    hist = []
+    counter = [0]
+
+    async def verify(after):
+        # handles unique per device, in host, device and controller
+        for d in range(n):
+            hs = [c.handle for c in rg.devices[d].connections.values()]
+            ch = [c.handle for c in list(rg.controllers[d].le_connections.values()) + list(rg.controllers[d].classic_connections.values())]
+            r.ev('oracle_evals')
+            if len(set(hs)) != len(hs) or len(set(ch)) != len(ch):
+                r.bad('churn/duplicate-handle', f'device {d}: device handles {hs}, controller handles {ch} after {after}; history={hist}')
+        # one unique payload each way on every live connection
+        marks = {d: len(ev.rx[d]) for d in range(n)}
+        want = {d: [] for d in range(n)}
+        for (a, b, tr), (ca, cb) in live.items():
+            for (s_, d_, cs, cd) in ((a, b, ca, cb), (b, a, cb, ca)):
+                counter[0] += 1
+                p = bytes([s_, d_]) + counter[0].to_bytes(3, 'little')
+                rg.devices[s_].send_l2cap_pdu(cs.handle, CID, p)
+                want[d_].append((cd.handle, p))
+        await rg.quiesce()
+        for d in range(n):
+            got = ev.rx[d][marks[d]:]
+            r.ev('payloads_checked', len(want[d]))
+            r.ev('oracle_evals')
+            if sorted(got) != sorted(want[d]):
+                lost = [w for w in want[d] if w not in got]
+                extra = [g for g in got if g not in want[d]]
+                r.bad('churn/misdelivery' if extra else 'churn/lost',
+                      f'device {d} after {after}: missing {len(lost)} extra {len(extra)} '
+                      f'(extra first: {extra[:1]}); history={hist}')
+
+    for step in range(rng.randint(4, 14)):
+        free = [(a, b) for a in range(n) for b in range(n) if a < b]
+        op = rng.choices(['connect', 'disconnect'], [3, 2 if live else 0])[0]
+        if op == 'connect':
+            a, b = rng.choice(free)
+            if rng.random() < 0.5:
+                a, b = b, a
+            tr = rng.choice(['le', 'bredr'])
+            if any({a, b} == {x, y} and t == tr for (x, y, t) in live):
+                continue
+            if tr == 'le' and any(t == 'le' and b in (x, y) and False for (x, y, t) in live):
+                continue
+            before = len(ev.conn[b])
+            try:
+                if tr == 'le':
+                    await vloop.vwait(rg.devices[b].start_advertising(auto_restart=False))
+                    ca = await vloop.vwait(rg.devices[a].connect(rg.devices[b].random_address, timeout=20))
+                else:
+                    ca = await vloop.vwait(rg.devices[a].connect(rg.devices[b].public_address,
+                                                                 transport=PhysicalTransport.BR_EDR, timeout=20))
+            except vloop.Hang:
+                r.bad(f'churn/connect-hang/{tr}', f'connect {a}->{b} pending at T_v; history={hist}')
+                return
+            except Exception as e:
+                r.bad(f'churn/connect-failed/{tr}', f'connect {a}->{b} raised {type(e).__name__}: {e}; history={hist}')
+                return
+            await rg.quiesce()
+            new_b = ev.conn[b][before:]
+            if len(new_b) != 1:
+                r.bad(f'churn/peer-events/{tr}', f'device {b} got {len(new_b)} connection events; history={hist}')
+                return
+            live[(a, b, tr)] = (ca, new_b[0])
+            hist.append(('connect', a, b, tr))
+            r.ev('connections_checked')
+        else:
+            key = rng.choice(sorted(live))
+            ca, cb = live.pop(key)
+            who = rng.choice([ca, cb])
+            try:
+                await vloop.vwait(who.disconnect())
+            except vloop.Hang:
+                r.bad('churn/disconnect-hang', f'disconnect pending; history={hist}')
+                return
+            except Exception as e:
+                r.bad('churn/disconnect-raised', f'{type(e).__name__}: {e}; history={hist}')
+            await rg.quiesce()
+            hist.append(('disconnect', key[0], key[1], key[2], 'by-initiator' if who is ca else 'by-acceptor'))
+            r.ev('disconnections_checked')
+        await verify(hist[-1] if hist else None)
+    for where, e in rg.exceptions:
+        r.bad('link/exception-in-stack', f'{where}: {e}; history={hist}')
+    r.ev('churn_cases')
+    r.sig('churn', n, tuple(hist))
+    r.sched.add(rg.schedule_signature)
+    r.evals()
+    r.sample = {'kind': 'churn', 'devices': n, 'history': hist}
+
+
+async def parallel(case, r: R):
+    """One device starts two outgoing BR/EDR connects that overlap in time, one of them to an
+    address nobody owns: each caller must get the outcome of its own attempt."""
+    from bumble import hci, core
+    from bumble.core import PhysicalTransport
+    from vlib import rig as vrig
+    rng = random.Random(case['seed'])
+    vrig.seed_entropy(case['seed'])
+    rg = make_rig(rng, case, 3, [False] * 3, classic=True)
+    await rg.power_on()
+    ev = Events(rg)
+    A, B = rg.devices[0], rg.devices[1]
+    absent = hci.Address('09:09:09:09:09:09', hci.Address.PUBLIC_DEVICE_ADDRESS)
+    order = rng.random() < 0.5
+    # hold back the acceptor's answers so that both attempts are pending together
+    rg.c2h[1].fifo.paused = True
+    t_good = asyncio.ensure_future(A.connect(B.public_address, transport=PhysicalTransport.BR_EDR, timeout=40))
+    for _ in range(rng.randint(0, 10)):
+        await asyncio.sleep(0)
+    t_bad = asyncio.ensure_future(A.connect(absent, transport=PhysicalTransport.BR_EDR, timeout=40))
+    for _ in range(rng.randint(5, 40)):
+        await asyncio.sleep(0)
+    rg.c2h[1].fifo.paused = False
+    res = {}
+    for name, t in (('good', t_good), ('bad', t_bad)):
+        try:
+            res[name] = await vloop.vwait(t)
+        except vloop.Hang:
+            res[name] = 'HANG'
+        except Exception as e:
+            res[name] = e
+    await rg.quiesce()
+    r.ev('steal_cases')
+    r.ev('oracle_evals', 3)
+    g, b = res['good'], res['bad']
+    if g == 'HANG' or b == 'HANG':
+        r.bad('parallel/hang', f'good={g!r} bad={b!r}')
+    if isinstance(g, Exception):
+        r.bad('parallel/good-connect-got-foreign-failure',
+              f'connect(B) raised {type(g).__name__}: {g} although B accepted (it was handed the failure of the other attempt?)')
+    elif g != 'HANG' and bytes(g.peer_address) != bytes(B.public_address):
+        r.bad('parallel/wrong-connection-returned', f'connect(B) returned {g}')
+    if not isinstance(b, Exception) and b != 'HANG':
+        r.bad('parallel/absent-connect-succeeded', f'connect(absent) returned {b}')
+    # the A-B link must be held by A if it exists on B
+    b_has = [c for c in B.connections.values() if bytes(c.peer_address) == bytes(A.public_address)]
+    a_has = [c for c in A.connections.values() if bytes(c.peer_address) == bytes(B.public_address)]
+    if bool(b_has) != bool(a_has):
+        r.bad('parallel/link-on-one-side-only', f'A has {len(a_has)}, B has {len(b_has)} connection objects for the A-B link')
+    r.sig('parallel', order, case['seed'] % 50)
+    r.evals()
+    r.sample = {'kind': 'parallel-classic', 'good': type(g).__name__, 'bad': type(b).__name__}
+
+
+async def fragadv(case, r: R):
+    """An extended advertising set configured by raw HCI commands with advertising and scan
+    response data written in several fragments; scanners must see exactly the advertising data."""
+    from bumble import hci
+    from vlib import rig as vrig
+    rng = random.Random(case['seed'])
+    vrig.seed_entropy(case['seed'])
+    rg = make_rig(rng, case, 2, [True, rng.random() < 0.5], delay=0)
+    await rg.power_on()
+    host = rg.hosts[0]
+    Op = hci.HCI_LE_Set_Extended_Advertising_Data_Command.Operation
+    adv = bytes([rng.randrange(256) for _ in range(rng.choice([0, 10, 100, 200, 229]))])  # one report carries <= 229 bytes
+    rsp = bytes([0x80 | rng.randrange(128) for _ in range(rng.choice([0, 5, 260, 400]))])
+
+    def frags(data):
+        if len(data) <= 251 and rng.random() < 0.5:
+            return [(Op.COMPLETE_DATA, data)]
+        cuts = sorted(rng.sample(range(1, max(2, len(data))), min(max(1, len(data) // 200 + rng.randint(0, 1)), max(1, len(data) - 1)))) if len(data) > 1 else []
+        parts = [data[i:j] for i, j in zip([0] + cuts, cuts + [len(data)])]
+        parts = [p_ for p_ in parts if len(p_) <= 251] if all(len(p_) <= 251 for p_ in parts) else [data[i:i + 200] for i in range(0, len(data), 200)]
+        if len(parts) == 1:
+            return [(Op.COMPLETE_DATA, parts[0])]
+        return [(Op.FIRST_FRAGMENT, parts[0])] + [(Op.INTERMEDIATE_FRAGMENT, x) for x in parts[1:-1]] + [(Op.LAST_FRAGMENT, parts[-1])]
+
+    try:
+        await vloop.vwait(host.send_sync_command(hci.HCI_LE_Set_Extended_Advertising_Parameters_Command(
+            advertising_handle=1, advertising_event_properties=0x0013, primary_advertising_interval_min=160,
+            primary_advertising_interval_max=160, primary_advertising_channel_map=7, own_address_type=1,
+            peer_address_type=0, peer_address=hci.Address.ANY, advertising_filter_policy=0, advertising_tx_power=0,
+            primary_advertising_phy=1, secondary_advertising_max_skip=0, secondary_advertising_phy=1, advertising_sid=0,
+            scan_request_notification_enable=0)))
+        await vloop.vwait(host.send_sync_command(hci.HCI_LE_Set_Advertising_Set_Random_Address_Command(
+            advertising_handle=1, random_address=rg.devices[0].random_address)))
+        fa, fr = frags(adv), frags(rsp)
+        # interleave the two fragment trains
+        seq = [('a', x) for x in fa]
+        for i, x in enumerate(fr):
+            seq.insert(min(len(seq), rng.randint(0, len(seq))), ('r', x))
+        # keep per-train order
+        ai = iter(fa)
+        ri = iter(fr)
+        seq = [(k, next(ai) if k == 'a' else next(ri)) for k, _ in seq]
+        for kind, (op_, data) in seq:
+            if kind == 'a':
+                cmd = hci.HCI_LE_Set_Extended_Advertising_Data_Command(advertising_handle=1, operation=op_,
+                                                                       fragment_preference=0, advertising_data=data)
+            else:
+                cmd = hci.HCI_LE_Set_Extended_Scan_Response_Data_Command(advertising_handle=1, operation=op_,
+                                                                         fragment_preference=0, scan_response_data=data)
+            await vloop.vwait(host.send_sync_command(cmd))
+        seen = []
+        rg.devices[1].on('advertisement', seen.append)
+        await vloop.vwait(rg.devices[1].start_scanning(active=False))
+        await vloop.vwait(host.send_sync_command(hci.HCI_LE_Set_Extended_Advertising_Enable_Command(
+            enable=1, advertising_handles=[1], durations=[0], max_extended_advertising_events=[0])))
+    except vloop.Hang:
+        r.bad('fragadv/hang', 'an advertising set-up command never completed')
+        return
+    except hci.HCI_Error as e:
+        r.ev('fragadv_setup_refused')
+        r.add_extra_list('fragadv_errors', str(e))
+        return
+    await asyncio.sleep(1.0)
+    await rg.quiesce()
+    mine = [a for a in seen if bytes(a.address) == bytes(rg.devices[0].random_address) and not a.is_scan_response]
+    r.ev('adv_events_checked', len(mine))
+    r.ev('oracle_evals')
+    if not mine:
+        r.bad('fragadv/not-seen', f'scanner saw nothing from the fragmented set (adv {len(adv)} bytes, rsp {len(rsp)} bytes)')
+    for a in mine[:3]:
+        if bytes(a.data_bytes) != adv:
+            r.bad('fragadv/adv-data-wrong/' + ('multi-fragment-rsp' if len(fr) > 1 else 'single-fragment-rsp'),
+                  f'advertisement carries {len(a.data_bytes)} bytes, the set holds {len(adv)} bytes of advertising data '
+                  f'and {len(rsp)} of scan response (trains: adv x{len(fa)}, rsp x{len(fr)})')
+            break
+    r.ev('fragadv_cases')
+    r.sig('fragadv', len(adv), len(rsp), len(fa), len(fr))
+    r.evals()
+    r.sample = {'kind': 'fragadv', 'adv_len': len(adv), 'rsp_len': len(rsp), 'adv_fragments': len(fa), 'rsp_fragments': len(fr)}
+
+
 def run_case(case, r: R):
-    return {'mesh': mesh, 'steal': steal, 'scan': scan}[case['kind']](case, r)
+    return {'mesh': mesh, 'steal': steal, 'scan': scan, 'churn': churn, 'parallel': parallel,
+            'fragadv': fragadv}[case['kind']](case, r)
 
 
 LEVEL_TEXT = ('Relations over connection/disconnection/advertisement events and a per-device fixed channel on 2-5 '
